@@ -82,23 +82,25 @@ double __CPROVER_uninterpreted_fsub(double, double);
 #define FDIV(a, b) __CPROVER_uninterpreted_fdiv((a), (b))
 #define FMUL(a, b) __CPROVER_uninterpreted_fmul((a), (b))
 #define FSUB(a, b) __CPROVER_uninterpreted_fsub((a), (b))
+/* the tag is bit-exact (+0 and -0 are different operands of the uninterpreted function); NaN payloads are not distinguished */
+#define SAME_BITS(a, b) (((a) == (b) && __CPROVER_signd(a) == __CPROVER_signd(b)) || ((a) != (a) && (b) != (b)))
 static double gv_fdiv(double a, double b)
 {
   __CPROVER_assert(b != 0, "floating-point division: the divisor is not zero");
   double r = a / b;
-  __CPROVER_assume(SAME_D(r, FDIV(a, b)));
+  __CPROVER_assume(SAME_BITS(r, FDIV(a, b)));
   return r;
 }
 static double gv_fmul(double a, double b)
 {
   double r = a * b;
-  __CPROVER_assume(SAME_D(r, FMUL(a, b)) && SAME_D(r, FMUL(b, a)));     /* IEEE multiplication is commutative */
+  __CPROVER_assume(SAME_BITS(r, FMUL(a, b)) && SAME_BITS(r, FMUL(b, a)));     /* IEEE multiplication is commutative */
   return r;
 }
 static double gv_fsub(double a, double b)
 {
   double r = a - b;
-  __CPROVER_assume(SAME_D(r, FSUB(a, b)));
+  __CPROVER_assume(SAME_BITS(r, FSUB(a, b)));
   return r;
 }
 
@@ -206,7 +208,7 @@ __CPROVER_ensures(__CPROVER_return_value == self->rep + (n - 1))
 
 /* ---- weight of observation i: p_i = (m0_apr / stdDev_i)^2, stdDev of revised_obs_[i-1] -------------------------- */
 //@ contract LocalNetwork_weight_obs
-__CPROVER_requires(NET_SHAPE(self) && 1 <= i && i <= self->pocmer_)
+__CPROVER_requires(NET_SHAPE(self) && 1 <= i && i <= self->pocmer_ && 0 <= gv_stddev_calls && gv_stddev_calls <= MAXOBS)
 __CPROVER_assigns(gv_stddev_calls)
 __CPROVER_ensures(SAME_D(__CPROVER_return_value, W_TERM(self, i)))
 __CPROVER_ensures(__CPROVER_return_value > 0 && __CPROVER_return_value <= 1e300)     /* a usable divisor */
@@ -217,7 +219,7 @@ GV_CANARY("LocalNetwork_weight_obs entry");
 
 /* ---- residual cofactors: vahkopr(i) = (1 - h_i)/p_i, clamped at 0 only when negative ---------------------------- */
 //@ contract LocalNetwork_vyrovnani_wcoef_block
-__CPROVER_requires(NET_SHAPE(self) && self->tst_vyrovnani_ && gv_exc == 0)
+__CPROVER_requires(NET_SHAPE(self) && self->tst_vyrovnani_ && gv_exc == 0 && gv_qbb_calls == 0 && gv_stddev_calls == 0)
 __CPROVER_assigns(self->vahkopr.rep, self->vahkopr.sz, __CPROVER_object_whole(self->vahkopr.rep), gv_stddev_calls, gv_qbb_calls)
 __CPROVER_frees(self->vahkopr.rep)
 /* dimension: one element per observation */
@@ -242,7 +244,7 @@ __CPROVER_decreases((long)self->pocmer_ + 1 - i)
 
 /* ---- standard deviations of the adjusted observations ------------------------------------------------------------ */
 //@ contract LocalNetwork_vyrovnani_sigmaL_block
-__CPROVER_requires(NET_SHAPE(self) && self->tst_vyrovnani_ && gv_exc == 0 && gv_m0_calls == 0)
+__CPROVER_requires(NET_SHAPE(self) && self->tst_vyrovnani_ && gv_exc == 0 && gv_m0_calls == 0 && gv_qbb_calls == 0 && gv_stddev_calls == 0 && gv_sqrt_calls == 0)
 __CPROVER_requires((0 <= gv_j0 && gv_j0 < self->gv_nall) ==> FLAT_WF(self, gv_j0))
 __CPROVER_assigns(self->sigma_L.rep, self->sigma_L.sz, __CPROVER_object_whole(self->sigma_L.rep), gv_stddev_calls, gv_qbb_calls, gv_sqrt_calls, gv_m0_calls)
 __CPROVER_frees(self->sigma_L.rep)
@@ -279,6 +281,7 @@ __CPROVER_loop_invariant(0 <= gv_c && gv_c <= self->OD.ncl && SAME(cit, self->OD
                          ((gv_j0_act && gv_j0 < gv_pos) ==> SIG_OK(self->sigma_L.rep[gv_slot0])))
 __CPROVER_decreases((long)self->OD.ncl - gv_c)
 //@ head LocalNetwork_vyrovnani_sigmaL_block 1
+GV_ANCHOR(cit, self->OD.cl + gv_c);
 GV_INST(0 <= gv_c && gv_c < self->OD.ncl, CL_WF(self, gv_c));
 if (self->OD.cl[gv_c].first <= gv_j0 && gv_j0 < self->OD.cl[gv_c].last)   /* a cluster without active observations contains no active observation */
   GV_INST(0 <= self->OD.cl[gv_c].first && gv_j0 + 1 <= self->OD.cl[gv_c].last && self->OD.cl[gv_c].last <= self->gv_nall,
@@ -296,6 +299,7 @@ __CPROVER_loop_invariant(gv_pos <= gv_j && gv_j <= self->OD.cl[gv_c].last && SAM
                          ((gv_j0_act && gv_j0 < gv_j) ==> SIG_OK(self->sigma_L.rep[gv_slot0])))
 __CPROVER_decreases((long)self->OD.cl[gv_c].last - gv_j)
 //@ head LocalNetwork_vyrovnani_sigmaL_block 2
+GV_ANCHOR(i, self->gv_flat + gv_j);
 GV_INST(0 <= gv_j && gv_j < self->gv_nall, FLAT_WF(self, gv_j));
 if (0 <= gv_j0 && gv_j0 < gv_j) GV_INST(gv_j0 + 1 <= gv_j && gv_j <= self->gv_nall, APRE_MONO(self, gv_j0 + 1, gv_j));
 //@ tail LocalNetwork_vyrovnani_sigmaL_block 2
@@ -323,6 +327,7 @@ static void mk_net(struct LocalNetwork *N, struct AdjBase *ls)
   N->gv_apre = malloc(((size_t)N->gv_nall + 1) * sizeof(int));
   __CPROVER_assume(N->revised_obs_ && N->OD.cl && N->gv_flat && N->gv_apre);
   gv_exc = 0;
+  gv_qbb_calls = gv_stddev_calls = gv_sqrt_calls = gv_m0_calls = 0;
   __CPROVER_assume(NET_SHAPE(N));
 }
 void h_weight_obs(void)
